@@ -15,7 +15,7 @@
    C23_unrecognised_not_flagged / C23_exact show that this guard is exactly the complement of
    the finding.  The three _missed theorems quantify over whole families. *)
 From Coq Require Import List Bool NArith String.
-From MV Require Import Base.Bytes Model.SelfConnectBase Model.SelfSpec Gen.SelfConnect Proofs.SelfConnectC23.
+From MV Require Import Base.Bytes Model.SelfConnectBase Model.SelfSpec Gen.SelfConnect Model.ServersUpdate Proofs.SelfConnectC23 Proofs.ServersUpdateC23.
 Import ListNotations.
 
 Theorem C23_refuted :
@@ -81,6 +81,58 @@ Theorem C23_localhost_names_missed : forall s mt lh p ct,
   local_dest s /\ server_connect [{| mode_transport := mt; listen_addrs := [(lh, p)] |}] s p ct = None.
 Proof. exact localhost_names_missed. Qed.
 Print Assumptions C23_localhost_names_missed.
+
+(* ---- the guard's input: the registry of listeners under histories of runtime mode updates
+   (Model/ServersUpdate.v, hand model of Servers.update, tied to the real Proxyserver on the same histories) *)
+
+(* a registered instance whose spec is in the new mode list stays registered -- the same instance --
+   whatever happens to the instances added next to it (including starts that fail) *)
+Theorem C23_kept_stays : forall reg modes n mk fails spec i,
+  lookup spec reg = Some i -> In spec modes ->
+  lookup spec (r_reg (update reg true modes n mk fails)) = Some i.
+Proof. exact kept_stays. Qed.
+Print Assumptions C23_kept_stays.
+
+Theorem C23_never_replaced : forall reg on modes n mk fails spec i j,
+  lookup spec reg = Some i -> lookup spec (r_reg (update reg on modes n mk fails)) = Some j -> j = i.
+Proof. exact never_replaced. Qed.
+Print Assumptions C23_never_replaced.
+
+(* only stopped instances leave, and only when their spec was removed or the server option is off *)
+Theorem C23_only_stopped_leave : forall reg on modes n mk fails spec i,
+  lookup spec reg = Some i -> lookup spec (r_reg (update reg on modes n mk fails)) = None ->
+  In i (r_stopped (update reg on modes n mk fails)) /\ (on = false \/ ~ In spec modes).
+Proof. exact only_stopped_leave. Qed.
+Print Assumptions C23_only_stopped_leave.
+
+Theorem C23_kept_through_history : forall h reg n spec i,
+  lookup spec reg = Some i ->
+  (forall s, In s h -> s_server_on s = true /\ In spec (s_modes s)) ->
+  forall res, In res (run_updates reg n h) -> lookup spec (r_reg res) = Some i.
+Proof. exact kept_through_history. Qed.
+Print Assumptions C23_kept_through_history.
+
+(* hence a recognised destination on a kept listener is still refused after any such update *)
+Theorem C23_kept_listener_guarded : forall reg modes n mk fails spec i la ch ct,
+  lookup spec reg = Some i -> In spec modes ->
+  In la (listen_addrs (i_server i)) -> recognised ch (fst la) ->
+  transport_compatible (mode_transport (i_server i)) ct ->
+  server_connect (servers_of (r_reg (update reg true modes n mk fails))) ch (snd la) ct = Some error_message.
+Proof. exact kept_listener_guarded. Qed.
+Print Assumptions C23_kept_listener_guarded.
+
+Theorem C23_update_nonvacuous :
+  let res := update reg0 true [1; 2]%N 1%N (fun _ => sv 9090%N) (fun s => N.eqb s 2%N) in
+  lookup 1%N reg0 = Some {| i_id := 0%N; i_running := true; i_server := sv 8080%N |}
+  /\ lookup 1%N (r_reg res) = lookup 1%N reg0
+  /\ option_map i_running (lookup 2%N (r_reg res)) = Some false
+  /\ r_ok res = false /\ r_stopped res = []
+  /\ server_connect (servers_of (r_reg res)) s_localhost 8080%N TCP = Some error_message
+  /\ server_connect (servers_of (r_reg res)) s_localhost 9090%N TCP = None
+  /\ r_stopped (update (r_reg res) true [2]%N 2%N (fun _ => sv 9090%N) (fun _ => false))
+     = [{| i_id := 0%N; i_running := true; i_server := sv 8080%N |}].
+Proof. exact update_nonvacuous. Qed.
+Print Assumptions C23_update_nonvacuous.
 
 Theorem C23_nonvacuous :
   denotes_listener srv_dns (s_wild6, 53%N) s_localhost 53%N UDP
